@@ -84,7 +84,7 @@ PROPS = {
         'technique': 'Verus invariant (sleep_inv) over a trace decoder + Kani induction-step harness with timeline',
         'verus': {'cfgs': ['default'], 'fns': [r'^Display::(sleep|wake|is_sleeping|set_orientation|set_pixel|set_pixels|set_address_window|set_vertical_scroll_region|set_vertical_scroll_offset|set_tearing_effect|fill_solid)$',
                                                r'^builder::Builder::init$', r'^vf::lemma_ctrl_(push|px_pushed)$']},
-        'kani': {'files': ['root.rs', 'builder.rs'], 'groups': [{'quick': ['c13_step_preserves_sleep_invariant', 'c09_init_240x320'] , 'thorough': INIT_QUICK, 'jobs': 12}]},
+        'kani': {'files': ['root.rs', 'builder.rs'], 'groups': [{'quick': ['c13_step_preserves_sleep_invariant', 'c09_init_240x320'] + INIT_QUICK, 'thorough': INIT_REST, 'jobs': 12}]},
         'pairs': {r'sleep|wake': ['c13_step_preserves_sleep_invariant']},
         'functions': ['Display::{sleep,wake,is_sleeping}', 'every &mut Display method (invariant preservation)', 'Builder::init'],
         'assumptions': ['virtual time', 'Interface trait contract for generic transports'],
@@ -95,7 +95,7 @@ PROPS = {
         'technique': 'Kani symbolic fault index on loop-free units + Verus Err-postconditions',
         'verus': {'cfgs': ['default'], 'fns': [r'^Display::(sleep|wake|set_orientation|set_pixel|set_pixels|set_address_window|set_vertical_scroll_region|set_vertical_scroll_offset|set_tearing_effect|fill_solid)$',
                                                r'^models::\w+::\w+::init$', r'^models::ili9\d\dx::init_common$', r'^builder::Builder::init$', r'^dcs::InterfaceExt::write_(command|raw)$']},
-        'kani': {'files': ['root.rs', 'builder.rs', 'parallel.rs'], 'groups': [{'quick': ['c12_display_call_fault', 'c12_init_fault_st7789', 'c12_init_fault_ili9341rgb565', 'c12_init_fault_gc9107', 'c12_init_fault_ili9486rgb565',
+        'kani': {'files': ['root.rs', 'builder.rs', 'parallel.rs', 'spi.rs'], 'groups': [{'quick': ['c06_send_command_order_and_faults', 'c12_display_call_fault', 'c12_init_fault_st7789', 'c12_init_fault_ili9341rgb565', 'c12_init_fault_gc9107', 'c12_init_fault_ili9486rgb565',
                                                       'c07_send_word_latches_word', 'c07_set_value_step_8'],
                              'thorough': ['c12_init_fault_' + m for m in MODELS if m not in ('st7789', 'ili9341rgb565', 'gc9107', 'ili9486rgb565')] + ['c07_set_value_step_16'], 'jobs': 12}]},
         'functions': ['every Display method', 'Builder::init', 'Model::init x14', 'ParallelInterface::send_word', 'Generic8BitBus/Generic16BitBus::set_value'],
@@ -106,7 +106,7 @@ PROPS = {
         'level_note': "The Verus contracts of the three conversion functions are external_body (e-g ToBytes/RgbColor are outside Verus' reach) and are exactly what the Kani harnesses discharge. rgb565_to_u16 uses native-endian bytes both ways: endianness-independent, checked on the host.",
         'technique': 'Kani full-domain harnesses through the real e-g code; Verus contracts on the pixel-format trait',
         'verus': {'cfgs': ['default'], 'fns': [r'Rgb565::send_repeated_pixel$', r'Rgb666::send_repeated_pixel$', r'^Display::fill_solid$', r'^dcs::set_pixel_format::']},
-        'kani': {'files': ['interface.rs'], 'groups': [{'quick': ['c05_rgb565_all_values', 'c05_rgb666_all_values', 'c05_fill_and_stream_encode_identically', 'c05_bpp_from_rgb_color'], 'jobs': 4}]},
+        'kani': {'files': ['interface.rs', 'builder.rs'], 'groups': [{'quick': ['c05_rgb565_all_values', 'c05_rgb666_all_values', 'c05_fill_and_stream_encode_identically', 'c05_bpp_from_rgb_color'] + INIT_QUICK, 'thorough': INIT_REST, 'jobs': 12}]},
         'functions': ['rgb565_to_bytes', 'rgb565_to_u16', 'rgb666_to_bytes', 'InterfacePixelFormat impls x3', 'BitsPerPixel::from_rgb_color', 'PixelFormat::{with_all,as_u8}'],
         'assumptions': ['per-model COLMOD vs colour type: C11 harnesses (assertion tagged C11)'],
     },
